@@ -273,3 +273,40 @@ def own_exprs(n):
     if isinstance(a, (ast.FunctionDef, ast.AsyncFunctionDef, ast.ClassDef)):
         return
     yield from ast.walk(a)
+
+
+def defs_of(n, var):
+    """does CFG node n assign the local name `var`?"""
+    a = n.ast
+    if a is None:
+        return False
+    if n.kind == 'for':
+        return any(isinstance(x, ast.Name) and x.id == var for x in ast.walk(n.stmt.target))
+    if n.kind != 'stmt' and n.kind != 'return':
+        return False
+    if isinstance(a, ast.Assign):
+        return any(isinstance(x, ast.Name) and x.id == var and isinstance(x.ctx, ast.Store)
+                   for t in a.targets for x in ast.walk(t))
+    if isinstance(a, (ast.AugAssign, ast.AnnAssign)):
+        return isinstance(a.target, ast.Name) and a.target.id == var
+    return False
+
+
+def reaching_defs(cfg, var):
+    """{node: set of def nodes of `var` that reach the *entry* of node} (classic forward may-analysis)."""
+    defs = [n for n in cfg.nodes if defs_of(n, var)]
+    IN = {n: set() for n in cfg.nodes}
+    OUT = {n: set() for n in cfg.nodes}
+    work = list(cfg.nodes)
+    while work:
+        n = work.pop()
+        i = set()
+        for (p, lab) in cfg.pred[n]:
+            i |= OUT[p]
+        IN[n] = i
+        o = {n} if n in defs else set(i)
+        if o != OUT[n]:
+            OUT[n] = o
+            for (m, lab) in cfg.succ[n]:
+                work.append(m)
+    return IN
